@@ -115,6 +115,10 @@ def decorate(scs, *, seed, calls_choices=(("invoke",), ("stream",), ("invoke", "
             sc["post"] = rnd.random() < 0.6
             sc["hmod"] = rnd.random() < 0.5
             sc["shand"] = rnd.random() < 0.4
+            if rnd.random() < 0.02 and not sc.get("fail"):      # few: under a defect every such scenario costs a watchdog period
+                cand = [n for n in sc["nodes"] if n not in sc.get("rerun", []) and n not in (sc.get("sub") or {})]
+                if cand:
+                    sc["fail"] = [{"n": cand[rnd.randrange(len(cand))], "kind": "cspanic"}]   # a ProcessState callback panics (node recovers)
             if len(sc["nodes"]) > 1 and "delay" not in sc and rnd.random() < 0.7:
                 sc["delay"] = {n: rnd.randrange(4) for n in sc["nodes"]}
             if rnd.random() < 0.3:
